@@ -11,7 +11,8 @@ use rayon::prelude::*;
 use serde_json::{json, Value};
 
 // `b` and `salt` are synonyms of `a`: their quantities end up under the common name `a`
-pub const AISLE: &str = "[one]\na|b|salt\nolive oil|oil\n[two]\nA|Salt\nmissing\n";
+// common names that sort after AND before their synonyms (the list is walked in name order)
+pub const AISLE: &str = "[one]\nb|a\nsalt|Salt\nolive oil|oil\n[two]\nA\nmissing\n";
 
 fn q_json(q: &Option<Quantity<QValue>>) -> Value {
     match q {
